@@ -266,6 +266,22 @@ func checkC11Modes(c *Ctx) {
 		// key length guard
 		atoms := lenGuardAtoms(f, func(v ssa.Value) bool { return v == ssa.Value(f.Params[0]) }, func(n int64) bool { return n == 16 }, []int64{0, 15, 16, 17, 32}, "len(key)==16")
 		g := evalGuard(c.P, f, atoms, spec, callsNamed(f, "NewCipher"))
+		if !g.OK {
+			// decided on values (the test may sit in a helper that receives the key, or NewCipher's own error may be
+			// what rejects): no probe length other than 16 reaches a successful return
+			var accepted []string
+			for _, n := range []int64{0, 1, 8, 15, 17, 24, 31, 32, 33, 64} {
+				if lenProbeSucceeds(f, f.Params[0], n, 0) {
+					accepted = append(accepted, fmt.Sprint(n))
+				}
+			}
+			if len(accepted) == 0 && lenProbeSucceeds(f, f.Params[0], 16, 0) {
+				c.Holds("G-C11-keylen", fn, "len(key) == 16 or error", "for every probe length other than 16 no successful return is reachable (decided on values, following helpers that receive the key)", f.Pos())
+			} else {
+				c.ViolatedHard("G-C11-keylen", fn, "len(key) == 16 or error", "keys of length "+strings.Join(accepted, ", ")+" bytes can reach a successful return ("+g.Why+")", g.Pos)
+			}
+			continue
+		}
 		c.Check(g.OK, "G-C11-keylen", fn, "len(key) == 16 or error", g.Why, g.Why, g.Pos)
 	}
 }
